@@ -274,7 +274,9 @@ class Unit:
             # R10: crate:: / super:: paths -> last segment
             if t.kind == 'ident' and t.text in ('crate', 'super'):
                 prev = self.prev_sig(toks, k, item.start)
-                if prev is None or toks[prev].text != ':':   # start of a path
+                prev2 = self.prev_sig(toks, prev, item.start) if prev is not None else None
+                mid_path = prev is not None and prev2 is not None and toks[prev].text == ':' and toks[prev2].text == ':'
+                if not mid_path:   # start of a path
                     segs = [k]
                     j = k
                     while True:
